@@ -749,6 +749,12 @@ class Model(Object):
                 # TODO: Should we add a copy of the metabolite instead?
                 if metabolite not in self.metabolites:
                     self.add_metabolites(metabolite)
+                    # a reaction that was removed from a model before is not
+                    # known to its metabolites any more
+                    if reaction not in metabolite._reaction:
+                        metabolite._reaction.add(reaction)
+                        if context:
+                            context(partial(metabolite._reaction.discard, reaction))
                 # A copy of the metabolite exists in the model, the reaction
                 # needs to point to the metabolite in the model.
                 else:
